@@ -1058,7 +1058,7 @@ class NPProxy:
             "sin": ssin,
             "log": slog,
             "arccos": _gap("arccos"),
-            "cbrt": _gap("cbrt"),
+            "cbrt": lambda x: (S.sym_cbrt(Sym.const(x)) if not isinstance(x, _np.ndarray) else _map(lambda v: S.sym_cbrt(Sym.const(v)), x)),
             "spacing": _gap("spacing"),
             "roots": _gap("np.roots"),
             "argsort": _gap("argsort"),
